@@ -174,7 +174,7 @@ func vtC13mExec(in []int64) []int64 {
 }
 
 func vtC13WriteSelector(r *rand.Rand, out []int64, podSide bool) []int64 {
-	switch r.Intn(8) {
+	switch r.Intn(12) {
 	case 0:
 		return append(out, 1, 0, 0)
 	case 1:
@@ -204,7 +204,7 @@ func vtC13GenProfile(r *rand.Rand, name int, tier string) []int64 {
 	case 1:
 		out = append(out, 2, []int64{0, 100, 50, 70}[r.Intn(4)])
 	case 2:
-		if r.Intn(4) == 0 {
+		if r.Intn(8) == 0 {
 			out = append(out, 3, 0)
 		} else {
 			out = append(out, 1, 100)
@@ -260,10 +260,10 @@ func vtC13GenProfile(r *rand.Rand, name int, tier string) []int64 {
 	}
 	out = append(out, vtC13EncStr(q)...)
 	// priorityClassName
-	switch r.Intn(12) {
+	switch r.Intn(30) {
 	case 0:
 		out = append(out, 1, 0)
-	case 1, 2, 3, 4:
+	case 1, 2, 3, 4, 5, 6, 7, 8, 9:
 		v := vtC13GenPriority(r)
 		if tier == string(extension.PriorityBatch) {
 			v = int64(extension.PriorityBatchValueMin) + r.Int63n(1000)
@@ -354,7 +354,7 @@ func vtC13mGen(r *rand.Rand, i int) (string, []int64) {
 		in = append(in, vtC13GenProfile(r, names[j], tier)...)
 	}
 	// make sure the tier styles usually end up in their tier: give the pod itself the identity
-	if tier != "" && r.Intn(2) == 0 {
+	if tier != "" && r.Intn(4) != 0 {
 		if r.Intn(2) == 0 {
 			class = tier
 		} else if tier == string(extension.PriorityBatch) {
